@@ -75,10 +75,10 @@ class Rule_CP05(Rule_CP01):
             "primitive_type", "datetime_type_identifier", "data_type"
         ):
             for seg in context.segment.segments:
-                # We don't want to edit symbols, quoted things or identifiers
-                # if they appear.
+                # We don't want to edit symbols, quoted things, identifiers
+                # or comments if they appear.
                 if seg.is_type(
-                    "symbol", "identifier", "quoted_literal"
+                    "symbol", "identifier", "quoted_literal", "comment"
                 ) or not seg.is_type("raw"):
                     continue
                 res = self._handle_segment(seg, context)
